@@ -154,7 +154,7 @@ def run(tier: str, seed: int, only=None) -> Report:
                     "legal order of the global sections) and parse() must return exactly the denoted structure. Multi-chain: 2-3 chains "
                     "with symbolic link kinds.",
         functions=FUNCS,
-        bounds="L<=3 (quick) / <=5 (thorough); 32 spellings x 6 list slots; every slot alone, every pair (quick) and triple (thorough) of the 9 "
+        bounds="L<=3 (quick) / <=5 (thorough); 34 spellings x 6 list slots; every slot alone, every pair (quick) and triple (thorough) of the 9 "
                "slots, all 9 at once; multipliers {1,2,3,10}; charge {-3,-1,1,2} with/without 4 adduct lists; 1-3 chains",
         outside="free-text modification names beyond the palette; multipliers >10; nested interval/ambiguity forms the library does not document",
         assumptions=["S1, S2", "palette/multiplier/charge values are concrete (they would be realised at f-string formatting anyway)"],
